@@ -19,7 +19,7 @@ import (
 // recordingPeer plays a symbolic sequence of server behaviours and records the body it receives
 // on every attempt.
 type recordingPeer struct {
-	script   []int // per attempt: 0 = 200, 1 = 401 Basic, 2 = 503, 3 = 429, 4 = transport error, 5 = 400
+	script   []int // per attempt: 0 = 200, 1 = 401 Basic, 2 = 503, 3 = 429, 4 = transport error, 5 = 400, 6 = timeout (retryable error)
 	attempt  int
 	bodies   []string
 	authSeen []string
@@ -28,6 +28,13 @@ type recordingPeer struct {
 }
 
 var errTransport = errors.New("connection reset")
+
+// timeoutErr is a net.Error whose Timeout() is true: the default predicate retries it.
+type timeoutErr struct{}
+
+func (timeoutErr) Error() string   { return "i/o timeout" }
+func (timeoutErr) Timeout() bool   { return true }
+func (timeoutErr) Temporary() bool { return true }
 
 func (p *recordingPeer) RoundTrip(req *http.Request) (*http.Response, error) {
 	body := ""
@@ -64,6 +71,8 @@ func (p *recordingPeer) RoundTrip(req *http.Request) (*http.Response, error) {
 		return nil, errTransport
 	case 5:
 		return mk(http.StatusBadRequest), nil
+	case 6:
+		return nil, timeoutErr{} // retryable transport error (the body has been consumed by now)
 	}
 	return mk(http.StatusOK), nil
 }
@@ -77,7 +86,7 @@ func VerifC17Stack() {
 	A := verifrt.Param("A", 3)
 	peer := &recordingPeer{}
 	for i := 0; i < A; i++ {
-		peer.script = append(peer.script, verifrt.Choice(6))
+		peer.script = append(peer.script, verifrt.Choice(7))
 	}
 	maxRetry := verifrt.Choice(3)
 	policy := &retry.GenericPolicy{Retryable: retry.DefaultPredicate, Backoff: func(int, *http.Response) time.Duration { return time.Millisecond },
@@ -152,7 +161,7 @@ func VerifC17Stack() {
 		// status, retries left, body can be rewound) the call ends with the context's error and no
 		// further attempt is made
 		k := kindAt(peer.cancelAt)
-		if (k == 2 || k == 3) && inSend[peer.cancelAt] < maxRetry && bodyKind != 2 {
+		if (k == 2 || k == 3 || k == 6) && inSend[peer.cancelAt] < maxRetry && bodyKind != 2 {
 			verifrt.Assert(len(peer.bodies) == peer.cancelAt+1, "C17.stack.no-attempt-after-cancel")
 			verifrt.Assert(errors.Is(derr, context.Canceled), "C17.stack.cancel-returns-context-error")
 			verifrt.Reach("C17.stack.cancelled-in-pause")
